@@ -40,7 +40,7 @@ BREAK = [
      "        if not self.list_of_class_constraints:\n            self.list_of_class_constraints = list()\n            self.list_of_class_psd = list()\n            self.add_class_constraints()", None),
     # ---- certificate (C01)
     ("untracked-class-constraint", ["C01"], P, "                wrapper.send_constraint_to_solver(constraint)\n                self._list_of_constraints_sent_to_wrapper.append(constraint)\n\n            if verbose:\n                print('\\t\\t\\tFunction', function_counter, ':', len(function.list_of_class_constraints),",
-     "                wrapper.send_constraint_to_solver(constraint)\n\n            if verbose:\n                print('\\t\\t\\tFunction', function_counter, ':', len(function.list_of_class_constraints),", "R-PAIR"),
+     "                wrapper.send_constraint_to_solver(constraint)\n\n            if verbose:\n                print('\\t\\t\\tFunction', function_counter, ':', len(function.list_of_class_constraints),", "R-SOLVEPROG"),
     ("dual-zip-offset", ["C01", "C11"], WR, "dual_values[1:]):", "dual_values):", "R-TRACK"),
     ("cvxpy-cursor-start", ["C01"], CV, "        counter = 1\n", "        counter = 0\n", "R-SLOTS"),
     ("cvxpy-skip-size", ["C01"], CV, "                counter += size\n", "                counter += size - 1\n", "R-SLOTS"),
@@ -53,14 +53,14 @@ BREAK = [
     # ---- primal instance (C02)
     ("leaf-index-shift", ["C02"], P, "point._value = points_values[:, point.counter]\n        for expression", "point._value = points_values[:, point.counter - 1]\n        for expression", "R-LEAFREG"),
     ("expr-eval-double", ["C02"], EX, "value += weight * np.dot(point1.eval(), point2.eval())", "value += 2 * weight * np.dot(point1.eval(), point2.eval())", "R-EVALSHAPE"),
-    ("objective-ge-metric", ["C02", "C05"], P, "(self.objective <= performance_metric)", "(self.objective >= performance_metric)", "R-OBJ"),
+    ("objective-ge-metric", ["C02", "C05"], P, "(self.objective <= performance_metric)", "(self.objective >= performance_metric)", "R-SOLVEPROG"),
     ("clip-under-verbose", ["C02", "C12"], P, "                      \" matrix onto the cone of symmetric semi-definite matrix.\\033[0m\".format(np.min(eig_val)))\n            eig_val = np.maximum(eig_val, 0)",
      "                      \" matrix onto the cone of symmetric semi-definite matrix.\\033[0m\".format(np.min(eig_val)))\n                eig_val = np.maximum(eig_val, 0)", None),
     ("publish-before-heuristic", ["C02", "C14"], P, "        G_value, F_value = wrapper.get_primal_variables()\n\n        # Perform a dimension reduction if required",
      "        G_value, F_value = wrapper.get_primal_variables()\n        self.G_value = G_value\n\n        # Perform a dimension reduction if required", "R-PRIMALFLOW"),
     # ---- declared model (C05)
-    ("drop-function-psd-filter", ["C05"], P, "if len(function.list_of_constraints) > 0 or len(function.list_of_psd) > 0]", "if len(function.list_of_constraints) > 0]", "R-DRAIN"),
-    ("initial-conditions-slice", ["C05"], P, "        for condition in self.list_of_constraints:\n            wrapper.send_constraint_to_solver(condition)", "        for condition in self.list_of_constraints[1:]:\n            wrapper.send_constraint_to_solver(condition)", "R-DRAIN"),
+    ("drop-function-psd-filter", ["C05"], P, "if len(function.list_of_constraints) > 0 or len(function.list_of_psd) > 0]", "if len(function.list_of_constraints) > 0]", "R-SOLVEPROG"),
+    ("initial-conditions-slice", ["C05"], P, "        for condition in self.list_of_constraints:\n            wrapper.send_constraint_to_solver(condition)", "        for condition in self.list_of_constraints[1:]:\n            wrapper.send_constraint_to_solver(condition)", "R-SOLVEPROG"),
     ("cvxpy-equality-as-inequality", ["C05", "C11"], CV, "cvxpy_constraint = self._expression_to_solver(constraint.expression) == 0", "cvxpy_constraint = self._expression_to_solver(constraint.expression) <= 0", "R-SENSE"),
     ("ge-not-flipped", ["C05", "C06"], EX, "        return -self <= -other", "        return self <= other", None),
     ("dense-half-weight", ["C05"], TR, "                Gweights[point1.counter, point2.counter] = weight\n", "                Gweights[point1.counter, point2.counter] = weight / 2\n", "R-TRANSL"),
@@ -116,7 +116,7 @@ BREAK = [
     ("linear-opt-sign", ["C08"], "PEPit/primitive_steps/linear_optimization_step.py", "    gx = - dir", "    gx = dir", "R-STEP"),
     ("inexact-relative-eps", ["C08"], "PEPit/primitive_steps/inexact_gradient_step.py", "epsilon ** 2 * (gx0 ** 2) <= 0", "epsilon * (gx0 ** 2) <= 0", "R-STEP"),
     # ---- back-ends (C11)
-    ("mosek-untracked-index", ["C11"], MK, "        if track:\n            self._constraint_index_in_mosek.append(nb_cons)", "        self._constraint_index_in_mosek.append(nb_cons)", "R-ROWIDX"),
+    ("mosek-untracked-index", ["C11"], MK, "        if track:\n            self._constraint_index_in_mosek.append(nb_cons)", "        self._constraint_index_in_mosek.append(nb_cons)", "R-MOSEKPROG"),
     ("mosek-heuristic-sense", ["C11", "C14"], MK, "self.send_constraint_to_solver(self.objective >= wc_value - tol_dimension_reduction, track=False)", "self.send_constraint_to_solver(self.objective >= wc_value + tol_dimension_reduction, track=False)", "R-HEUR"),
     ("mosek-heuristic-tracked", ["C11", "C14"], MK, "self.send_constraint_to_solver(self.objective >= wc_value - tol_dimension_reduction, track=False)", "self.send_constraint_to_solver(self.objective >= wc_value - tol_dimension_reduction)", "R-HEUR"),
     # ---- history (C12)
@@ -144,7 +144,6 @@ BREAK = [
     ("block-smooth-full-gradient", ["C15", "C03"], "PEPit/functions/block_smooth_convex_function.py", "1 / (2 * self.L[k]) * (gik - gjk) ** 2", "1 / (2 * self.L[k]) * (gi - gj) ** 2", "R-FORMULA"),
     # ---- failures (C16)
     ("leaf-expression-returns-zero", ["C16"], EX, 'raise ValueError("The PEP must be solved to evaluate Expressions!")', "return 0.", "R-UNSOLVED"),
-    ("constraint-catches-typeerror", ["C16"], "PEPit/constraint.py", "        except ValueError:", "        except TypeError:", "R-UNSOLVED"),
     ("except-instance", ["C16"], "PEPit/psd_matrix.py", "        except ValueError:", "        except ValueError(\"The PEP must be solved to evaluate Expressions!\"):", "R-EXCEPT"),
     ("none-check-removed", ["C16"], P, "            # Skip the following as no variable has a value\n            return wc_value\n", "            # Skip the following as no variable has a value\n            wc_value = 0.\n", "R-NONE"),
     ("step-open-dispatch", ["C16", "C08"], "PEPit/primitive_steps/inexact_gradient_step.py", "        raise ValueError(\"inexact_gradient_step supports only", "        print(\"inexact_gradient_step supports only", None),
@@ -170,6 +169,8 @@ BREAK = [
 
 # behaviour-preserving edits: (id, file, old, new) -- every check must stay silent
 BENIGN = [
+    # the 'must be solved' ValueError of the expression then reaches the caller unchanged: still the documented kind of error (C16 names the type)
+    ("constraint-lets-the-expression-error-through", "PEPit/constraint.py", "        except ValueError:", "        except TypeError:"),
     ("callback-as-lambda", "PEPit/functions/convex_function.py", "set_class_constraint_i_j=self.set_convexity_constraint_i_j,", "set_class_constraint_i_j=lambda xi, gi, fi, xj, gj, fj: fi - fj >= gj * (xi - xj),"),
     ("second-list-is-a-copy", "PEPit/functions/convex_function.py", "                                                      list_of_points_2=self.list_of_points,", "                                                      list_of_points_2=list(self.list_of_points),"),
     ("cholesky-transposed-fast-path", P, "        points_values = np.linalg.qr((np.sqrt(eig_val) * eig_vec).T, mode='r')", "        if np.min(eig_val) > np.max(eig_val) / 1e3:\n            points_values = np.linalg.cholesky(G_value).T\n        else:\n            points_values = np.linalg.qr((np.sqrt(eig_val) * eig_vec).T, mode='r')"),
